@@ -16,6 +16,18 @@ checks = {
  'C20': ('exploration', 'runtime monitor: round-trip oracles (uGO->Go->uGO type-exact, Go->uGO->Go deep-equal), exhaustive numeric width table checked with math/big, unsupported-type and registry tables, panic monitor on every call',
    'Seeded nested values in both directions through ToObject, ToObjectAlt and ToInterface plus exhaustive tables of every Go numeric width x boundary values x nesting shapes, 68 unsupported Go types and the time/json registry types. Held on what was run.',
    'trusts canon.Value rendering, reflect.DeepEqual-style comparator in c20values.go and math/big', 'DESIGN.md §3 C20'),
+ 'C04': ('exploration', 'runtime monitor: differential oracle original vs decoded vs re-decoded bytecode (value, event log, globals, error, stack-trace lines) over a constants profile and seeded generated programs with source and builtin modules',
+   'Every program is compiled, encoded, decoded with the same modules, re-encoded and decoded again; the three bytecodes are run on three argument vectors and compared; encode/decode failures or panics on compiler output are violations. Held on what was run.',
+   'the run of the original bytecode is the reference; canonical outcome comparison (floats by bits)', 'DESIGN.md §3 C04'),
+ 'C06': ('exploration', 'runtime monitor: host-panic sanitizer (recover() around VM.Run on its own goroutine, child-process crash attribution) + follow-up-run probes on the same VM, over an exhaustive fault x context matrix and generated faulty programs',
+   'About 65 fault expressions (operators, indexing, calls, panicking Go callbacks and a hostile custom Object, resource exhaustion at the 2048-slot and 1024-frame edges) are placed in 13 contexts and run with recovery on; any panic reaching the harness, a nil/nil result, or a wrong follow-up run on the same VM is a violation. Exhaustive over the matrix, sampled over generated programs.',
+   'Go stack exhaustion by native recursion is out of the budget; callbacks honour the Object contract', 'DESIGN.md §3 C06'),
+ 'C07': ('exploration', 'runtime monitor: used-VM vs new-VM differential over enumerated run histories (13 termination kinds x 4 transitions x 8 observers exhaustive, random histories up to length 6), plus canonical bytecode dump before/after',
+   'Histories including aborted, overflowed, panicked (recovered and unrecovered) runs are executed on one VM; the observed script then must behave exactly as on a new VM, repeatably, and no involved Bytecode may change. Exhaustive single-step product, sampled longer histories.',
+   'map iteration order never observable in observers; REPL-style re-run without Clear is out of the statement', 'DESIGN.md §3 C07'),
+ 'C11': ('exploration', 'runtime monitor: differential oracle v2 program vs the same program down-converted to the version-1 layout by the harness and decoded by the repository (value, log, globals, error, trace lines); down-converter self-validated by its inverse on every program',
+   'Seeded generated programs rich in jumps/try statements (and fixed probes) are re-laid into the v1 operand widths with relocated targets, given a v1 header, decoded and run against the original on three argument vectors. Held on what was run; programs not representable in v1 are skipped and counted.',
+   'trusts encoder/opv1.OpcodeOperands as the v1 layout and the harness relayout (checked by round trip against the original bytes)', 'DESIGN.md §3 C11'),
  'C15': ('exploration', 'runtime monitor: algebraic-law + reference-evaluator oracle over exhaustive boundary-pool pairs, panic monitor (recover) on direct and VM routes',
    'Every ordered pair of a ~75-value boundary pool x every operator is executed on the real Object.BinaryOp/Equal and on a VM; laws, an independent documented-conversion evaluator and a panic monitor judge each result. Exhaustive over the pool, sampled (seeded) over random 64-bit operands in thorough. Held-on-what-was-run, not a proof.',
    'trusts the small evaluator in internal/props/c15.go and Go arithmetic; relational cells where the document is silent are only subject to the laws', 'DESIGN.md §3 C15'),
